@@ -108,6 +108,7 @@ class StreamProperty:
         nviol = 0
         broken_corr = []
         for c in cases:
+            nviol = len(res.violations)      # listed known findings do not use up the budget
             if nviol >= 6:
                 break
             found = False
